@@ -348,6 +348,24 @@ def oracle_table(case):
         for mreq in [None] + (models if "pdbx_PDB_model_num" not in drop else []):
             s3 = read_text(text, "cif", mreq)
             out += compare_request(s3, exp_atoms, mreq, "cif-dialect")
+    if case.get("altloc_blocks") and any(a["altloc"] for a in atoms):
+        # the copies of an atom need not be adjacent: inside every residue all records of one alternate location,
+        # then all of the next (as some refinement programs write them), or the reverse
+        atoms5 = []
+        keyf = lambda a: (a["model"], a["chain"], a["resseq"], a["icode"], a["resname"])
+        i = 0
+        while i < len(atoms):
+            j = i
+            while j < len(atoms) and keyf(atoms[j]) == keyf(atoms[i]):
+                j += 1
+            block = atoms[i:j]
+            order = sorted(range(len(block)), key=lambda k: (block[k]["altloc"], k), reverse=(case["altloc_blocks"] == "reverse"))
+            atoms5 += [block[k] for k in order]
+            i = j
+        for tag5, text5, ext5 in (("pdb", atomtab.emit_pdb(atoms5), "pdb"), ("cif", atomtab.emit_cif(atoms5, "?"), "cif")):
+            for mreq in [None] + models:
+                s3 = read_text(text5, ext5, mreq)
+                out += compare_request(s3, atoms5, mreq, f"{tag5}-altloc-blocks")
     if case.get("row_order") and len(models) >= 2:
         # the atom_site loop has no ordering constraint: rows of one model need not be contiguous. Residues stay
         # contiguous within their model; the expectation is computed from the rows in the order written.
@@ -426,6 +444,8 @@ def classify(case):
         labs.append("two-residues-at-one-position")
     if case.get("row_order") and len({a["model"] for a in atoms}) >= 2:
         labs.append("cif-rows-" + case["row_order"])
+    if case.get("altloc_blocks") and any(a["altloc"] for a in atoms):
+        labs.append("altloc-copies-not-adjacent")
     if case.get("dialect"):
         labs.append("cif-dialect")
         labs.append("cif-identity-" + case["dialect"].get("identity", "both"))
@@ -440,6 +460,7 @@ def st_cases():
     return st.fixed_dictionaries({"atoms": atomtab.st_tables(clashes=True, modified=True, shared_positions=True),
                                   "missing_occ": st.sampled_from(["", "", "?", "."]),
                                   "row_order": st.sampled_from(["", "polymer-first", "by-residue", "models-reversed"]),
+                                  "altloc_blocks": st.sampled_from(["", "forward", "reverse"]),
                                   "dialect": st.one_of(st.none(), st.fixed_dictionaries({
                                       "drop": st.lists(st.sampled_from(OPTIONAL_ITEMS), max_size=5, unique=True),
                                       "order": st.one_of(st.none(), st.integers(0, 10 ** 6)),
